@@ -19,12 +19,14 @@ def outcome(recipe, source, tolerant, ctx=None):
     from . import contexts, px, monitor
     from .treedump import dump
     from pylatexenc.latexwalker import LatexWalkerParseError
+    # 'recipe@parens': the parse starts in a parsing state that also has ( ) as group delimiters
+    pskw = None
+    if recipe.endswith('@parens'):
+        pskw = {'latex_group_delimiters': [('{', '}'), ('(', ')')]}
     if ctx is None:
-        ctx = contexts.build(recipe)
-        if recipe == 'extended-frozen':
-            pass
+        ctx = contexts.build(recipe.split('@')[0])
     try:
-        w, nl = px.parse(source, ctx, tolerant=tolerant)
+        w, nl = px.parse(source, ctx, tolerant=tolerant, parsing_state_kw=pskw)
         return ['tree', dump(nl)]
     except LatexWalkerParseError as e:
         what = (getattr(e, 'error_type_info', None) or {}).get('what')
